@@ -105,11 +105,11 @@ def coq_makefile():
                 files.append(os.path.relpath(os.path.join(root, f), COQ))
     files.sort()
     proj = open(os.path.join(COQ, '_CoqProject')).read().rstrip('\n') + '\n' + '\n'.join(files) + '\n'
-    gen = os.path.join(WORK, '_CoqProject.full')
+    gen = os.path.join(COQ, '_CoqProject.full')
     old = open(gen).read() if os.path.exists(gen) else None
     if old != proj or not os.path.exists(os.path.join(COQ, 'Makefile')):
         open(gen, 'w').write(proj)
-        rc, o, e = sh(['coq_makefile', '-f', gen, '-o', 'Makefile'], cwd=COQ, timeout=120)
+        rc, o, e = sh(['coq_makefile', '-f', '_CoqProject.full', '-o', 'Makefile'], cwd=COQ, timeout=120)
         if rc != 0:
             raise RuntimeError('coq_makefile failed: ' + e)
 
